@@ -42,6 +42,10 @@ def base_program(pkg, layout="three", import_form="from_import", entry_data=Fals
     # run-time arguments bound to parameters that have defaults (positional, and by keyword)
     E1 = gen.add_fn(p, top, "E1", params=[("y", "3"), ("z", "9")], const=31)
     E2 = gen.add_fn(p, top, "E2", params=[("a", None), ("z", "9")], const=32)
+    # a kept function with a literal argument that itself keeps a function with a run-time argument
+    E3i = gen.add_fn(p, top, "E3i", params=[("q", None)], const=34)
+    E3 = gen.add_fn(p, top, "E3", params=[("p", None)], const=33)
+    p["fns"][E3]["stmts"] = [gen.s_keep("/e3i", E3i, [gen.param("p")])]
     main = gen.add_fn(p, top, "main", const=1, data_path="/main" if entry_data else None)
     p["fns"][main]["stmts"] = [
         gen.s_keep("/a", A, [gen.lit("1"), gen.lit("2")]),
@@ -50,11 +54,12 @@ def base_program(pkg, layout="three", import_form="from_import", entry_data=Fals
         gen.s_call(h1, [gen.lit("7")]),
         gen.s_keep("/e1", E1, [gen.local(0)]),
         gen.s_keep("/e2", E2, [gen.lit("1"), gen.local(1, kw="z")]),
+        gen.s_keep("/e3", E3, [gen.lit("4")]),
     ]
     p["entry"] = main
     if with_ext:
         p["ext"] = {"pkg": pkg + "_ext", "const": 1, "var": "1", "comment": "c"}
-    p["_ids"] = {"h2": h2, "C": C, "h1": h1, "A": A, "B": B, "D": D, "E1": E1, "E2": E2, "main": main, "leaf": leaf, "mid": mid, "top": top}
+    p["_ids"] = {"h2": h2, "C": C, "h1": h1, "A": A, "B": B, "D": D, "E1": E1, "E2": E2, "E3": E3, "E3i": E3i, "main": main, "leaf": leaf, "mid": mid, "top": top}
     return p
 
 
